@@ -148,5 +148,3 @@ func firstLines(s string, n int) string {
 	return out
 }
 
-func cmdCheck(args []string) int  { fmt.Println("not yet"); return 2 }
-func cmdReplay(args []string) int { fmt.Println("not yet"); return 2 }
